@@ -514,7 +514,7 @@ func c03ReuseScenario(x *mc.X) *mc.Outcome {
 func init() {
 	Register(&Prop{
 		ID:    "C03",
-		Rule:  "full product: leaf kind {String, Int, Int32, Int64, Float64, Float32, Bool, Time} × 49 input representations (Go native of every width, decimal/exponent/bool/time strings, unix seconds, JSON-typed float64, []byte, lists, maps) × coercer option {default, WithCoercer, global conf.Coercers override, WithCoercer applied through Ptr, Time.Format ×4 layouts incl. RFC3339, Time.FormatFunc; the schema-level options also with a process-wide override of the same kind installed at the same time} × placement {top, struct field, slice element, behind pointer, struct in slice, pre-allocated pointer field}; plus slices of length 0..3 in 5 representations; plus destination independence: every core case with one focus unit parsed into two differently pre-filled destinations (different sentinels, slices with spare capacity); plus the whole destination against the reference model: every core case (hand-picked skeletons and the shape grammar of two-field structs) with ≤2 focus units, all visit orders, on success the destination must equal the model's node for node (leaves, allocated and nil pointers, slice lengths, untouched sentinels); non-trivial = present input; distinct = distinct (kind, option, placement, input type, success)",
+		Rule:  "full product: leaf kind {String, Int, Int32, Int64, Float64, Float32, Bool, Time} × 49 input representations (Go native of every width, decimal/exponent/bool/time strings, unix seconds, JSON-typed float64, []byte, lists, maps) × coercer option {default, WithCoercer, global conf.Coercers override, WithCoercer applied through Ptr, Time.Format ×4 layouts incl. RFC3339, Time.FormatFunc; the schema-level options also with a process-wide override of the same kind installed at the same time} × placement {top, struct field, slice element, behind pointer, struct in slice, pre-allocated pointer field}; plus slices of length 0..3 in 5 representations; plus destination independence: every core case with one focus unit parsed into two differently pre-filled destinations (different sentinels, slices with spare capacity); plus the whole destination against the reference model: every core case (hand-picked skeletons and the shape grammar of two-field structs) with ≤2 focus units, all visit orders, on success the destination must equal the model's node for node (leaves, allocated and nil pointers, slice lengths, untouched sentinels), also when the destination's pointers already point to populated values; non-trivial = present input; distinct = distinct (kind, option, placement, input type, success)",
 		Floor: 100,
 		Bound: func(tier string) string { return "full product (both tiers)" },
 		Assumptions: []string{
@@ -533,6 +533,17 @@ func init() {
 			// the whole destination against the reference model (any two units over their alphabets, all visit orders)
 			for _, it := range coreItems(tier, c03ModelDestScenario, nil, []int{0}, 2) {
 				it.Name = "model-dest/" + it.Name
+				items = append(items, it)
+			}
+			// the same against a destination whose pointers already point to populated values (any one unit deviating)
+			for _, it := range coreItemsFiltered(tier, c03ModelDestScenario, nil, []int{0}, 1, func(ns NamedSkel) bool { return hasPtr(ns.S) }) {
+				inner := it.Run
+				it.Name = "model-dest-into-populated-pointers/" + it.Name
+				it.Run = func(x *mc.X) *mc.Outcome {
+					PreallocPtrs = true
+					defer func() { PreallocPtrs = false }()
+					return inner(x)
+				}
 				items = append(items, it)
 			}
 			return items
@@ -684,6 +695,24 @@ func c03IndependenceScenario(a *Alpha, ns NamedSkel, focus []string, elems int) 
 // issues (and the model expects none), every node of the destination — written leaves, allocated
 // and nil pointers, slice lengths, untouched sentinels of absent optional nodes and of fields the
 // schema does not name — equals the model's destination.
+
+func hasPtr(s *Skel) bool {
+	if s == nil {
+		return false
+	}
+	if s.Kind == KPtr {
+		return true
+	}
+	if hasPtr(s.Elem) {
+		return true
+	}
+	for _, f := range s.Fields {
+		if hasPtr(f.S) {
+			return true
+		}
+	}
+	return false
+}
 
 func c03ModelDestScenario(a *Alpha, ns NamedSkel, focus []string, elems int) mc.Scenario {
 	fm := focusMap(focus)
